@@ -60,6 +60,14 @@ func (r *Rng) Range(a, b int) int  { return a + r.Intn(b-a+1) }
 func (r *Rng) Chance(pct int) bool { return r.Intn(100) < pct }
 func (r *Rng) Pick(xs ...int) int  { return xs[r.Intn(len(xs))] }
 
+func (r *Rng) Pick64(xs ...int64) int64 {
+	v := xs[r.Intn(len(xs))]
+	if v < 0 {
+		return 0
+	}
+	return v
+}
+
 func Atoi(s string) int { n, _ := strconv.Atoi(s); return n }
 
 // Guard runs f and converts a panic into an output line.
